@@ -304,7 +304,7 @@ func publishedAs(p *Program, a *ssa.Alloc, depth int) []types.Type {
 				}
 			case *ssa.Return:
 				fn := u.Parent()
-				if node := p.CallGraph().Nodes[fn]; node != nil {
+				if node := p.cgNode(fn); node != nil {
 					for _, e := range node.In {
 						c := e.Caller.Func
 						if e.Site == nil || c == nil || c.Blocks == nil || p.isTestFile(c.Pos()) {
